@@ -105,23 +105,52 @@ Proof. reflexivity. Qed.
 
 (* ---------- the invariant ---------- *)
 
+(* taint f (a ghost field no operation reads or changes): the inodes that files below the working
+   directory may share with files outside - pre-populated hard links.  With taint f = [] the
+   invariant says that no inode is shared. *)
 Record Inv (wd : path) (f : fsys) : Prop := mkInv {
   inv_wd   : forall q r, wd = q ++ r -> q <> [] -> lookup f q = Some NDir;
   inv_ino  : forall p q i, lookup f p = Some (NFile i) -> lookup f q = Some (NFile i) ->
-             inside wd p = true -> inside wd q = true;
-  inv_fresh : forall p i, lookup f p = Some (NFile i) -> i < nexti f
+             inside wd p = true -> inside wd q = true \/ In i (taint f);
+  inv_fresh : forall p i, lookup f p = Some (NFile i) -> i < nexti f;
+  inv_taint : forall i, In i (taint f) -> i < nexti f
 }.
 
+(* nothing outside the working directory changes: not what is there (entry, type, inode, link text),
+   not the attributes of directories, not the content / mode / times of files - except for the
+   content, mode and times of files whose inode is tainted *)
 Definition same_outside (wd : path) (f f' : fsys) : Prop :=
-  forall p, inside wd p = false -> view_at f' p = view_at f p.
+  taint f' = taint f /\
+  forall p, inside wd p = false ->
+    lookup f' p = lookup f p /\ dir_mode f' p = dir_mode f p /\ dir_stamp f' p = dir_stamp f p /\
+    (forall i, lookup f p = Some (NFile i) -> ~ In i (taint f) ->
+               content f' i = content f i /\ file_stamp f' i = file_stamp f i).
 
 Definition Keeps (wd : path) (f f' : fsys) : Prop := Inv wd f' /\ same_outside wd f f'.
 
 Lemma same_outside_refl wd f : same_outside wd f f.
-Proof. intros p _. reflexivity. Qed.
+Proof. split; [reflexivity|]. intros p _. repeat split; reflexivity. Qed.
 
 Lemma same_outside_trans wd f g h : same_outside wd f g -> same_outside wd g h -> same_outside wd f h.
-Proof. intros A B p Hp. rewrite (B p Hp). apply A, Hp. Qed.
+Proof.
+  intros [Ta A] [Tb B]. split; [congruence|]. intros p Hp.
+  destruct (A p Hp) as (A1 & A2 & A3 & A4). destruct (B p Hp) as (B1 & B2 & B3 & B4).
+  split; [congruence|]. split; [congruence|]. split; [congruence|].
+  intros i L N. destruct (A4 i L N) as [C1 C2].
+  rewrite <- A1 in L. rewrite <- Ta in N. destruct (B4 i L N) as [D1 D2]. split; congruence.
+Qed.
+
+(* the observer's view: unchanged wherever the file is not tainted *)
+Lemma same_outside_view wd f f' p :
+  same_outside wd f f' -> inside wd p = false ->
+  (forall i, lookup f p = Some (NFile i) -> ~ In i (taint f)) ->
+  view_at f' p = view_at f p.
+Proof.
+  intros [_ A] Hp Hn. destruct (A p Hp) as (A1 & A2 & A3 & A4). unfold view_at. rewrite A1.
+  destruct (lookup f p) as [[|i|d a cs]|] eqn:L; try reflexivity.
+  - now rewrite A2, A3.
+  - destruct (A4 i eq_refl (Hn i eq_refl)) as [C1 C2]. now rewrite C1, C2.
+Qed.
 
 Lemma Keeps_refl wd f : Inv wd f -> Keeps wd f f.
 Proof. intro H. split; [exact H | apply same_outside_refl]. Qed.
@@ -140,6 +169,19 @@ Definition node_ok (wd : path) (f : fsys) (p : path) (n : node) : Prop :=
   | NSym _ _ _ => True      (* where a link points does not matter: it is never followed *)
   end.
 
+(* an update of the entries at an inside location only *)
+Lemma frame_ents wd f f' p :
+  inside wd p = true -> taint f' = taint f ->
+  (forall q, q <> p -> lookup f' q = lookup f q) ->
+  (forall q, dir_mode f' q = dir_mode f q) -> (forall q, dir_stamp f' q = dir_stamp f q) ->
+  (forall q i, lookup f q = Some (NFile i) -> content f' i = content f i /\ file_stamp f' i = file_stamp f i) ->
+  same_outside wd f f'.
+Proof.
+  intros Hin T L M D C. split; [exact T|]. intros q Hq.
+  assert (q <> p) by (intros ->; congruence).
+  split; [now apply L|]. split; [apply M|]. split; [apply D|]. intros i Li _. now apply (C q).
+Qed.
+
 Lemma keeps_set wd f p n :
   Inv wd f -> sinside wd p -> node_ok wd f p n -> Keeps wd f (set_ent p n f).
 Proof.
@@ -149,14 +191,16 @@ Proof.
       eapply sinside_not_prefix; eauto.
     + intros p0 q0 i. rewrite !lookup_set.
       destruct (path_eqb p p0) eqn:E1; destruct (path_eqb p q0) eqn:E2.
-      * apply path_eqb_spec in E2. subst q0. intros _ _ _. exact Hin.
+      * apply path_eqb_spec in E2. subst q0. intros _ _ _. now left.
       * intros [= ->] Hq _. destruct Hn as (q1 & Hq1 & Lq1). eapply (inv_ino _ _ I q1 q0); eauto.
-      * apply path_eqb_spec in E2. subst q0. intros _ _ _. exact Hin.
+      * apply path_eqb_spec in E2. subst q0. intros _ _ _. now left.
       * apply (inv_ino _ _ I).
     + intros p0 i. rewrite lookup_set. destruct (path_eqb p p0) eqn:E.
       * intros [= ->]. destruct Hn as (q1 & _ & Lq1). eapply (inv_fresh _ _ I); eauto.
       * apply (inv_fresh _ _ I).
-  - intros q Hq. unfold view_at. rewrite lookup_set, (outside_neq _ _ _ Hin Hq). reflexivity.
+    + exact (inv_taint _ _ I).
+  - apply (frame_ents wd f _ p Hin); try reflexivity; [|intros; split; reflexivity].
+    intros q Hq. rewrite lookup_set, path_eqb_neq; [reflexivity | congruence].
 Qed.
 
 Lemma keeps_del wd f p : Inv wd f -> sinside wd p -> Keeps wd f (del_ent p f).
@@ -170,13 +214,16 @@ Proof.
       apply (inv_ino _ _ I).
     + intros p0 i. rewrite lookup_delent. destruct (path_eqb p p0); [discriminate|].
       apply (inv_fresh _ _ I).
-  - intros q Hq. unfold view_at. rewrite lookup_delent, (outside_neq _ _ _ Hin Hq). reflexivity.
+    + exact (inv_taint _ _ I).
+  - apply (frame_ents wd f _ p Hin); try reflexivity; [|intros; split; reflexivity].
+    intros q Hq. rewrite lookup_delent, path_eqb_neq; [reflexivity | congruence].
 Qed.
 
 Lemma content_setcont_other i c f j : j <> i -> content (set_cont i c f) j = content f j.
 Proof. intro H. unfold content, set_cont; simpl. destruct (Nat.eqb i j) eqn:E; [|reflexivity].
   apply Nat.eqb_eq in E. congruence. Qed.
 
+(* a write to the inode of an inside file reaches an outside file only when the inode is tainted *)
 Lemma keeps_setcont wd f i c p :
   Inv wd f -> inside wd p = true -> lookup f p = Some (NFile i) -> Keeps wd f (set_cont i c f).
 Proof.
@@ -185,10 +232,10 @@ Proof.
     + exact (inv_wd _ _ I).
     + exact (inv_ino _ _ I).
     + exact (inv_fresh _ _ I).
-  - intros q Hq. unfold view_at. rewrite lookup_setcont.
-    destruct (lookup f q) as [[|j|]|] eqn:E; try reflexivity.
-    f_equal. apply content_setcont_other. intros ->.
-    pose proof (inv_ino _ _ I p q i L E Hin). congruence.
+    + exact (inv_taint _ _ I).
+  - split; [reflexivity|]. intros q Hq. repeat split; try reflexivity.
+    apply content_setcont_other. intros ->.
+    destruct (inv_ino _ _ I p q i L H Hin) as [C|C]; [congruence | contradiction].
 Qed.
 
 Lemma keeps_setfstamp wd f i t p :
@@ -199,11 +246,11 @@ Proof.
     + exact (inv_wd _ _ I).
     + exact (inv_ino _ _ I).
     + exact (inv_fresh _ _ I).
-  - intros q Hq. unfold view_at. rewrite lookup_setfstamp.
-    destruct (lookup f q) as [[|j|]|] eqn:E; try reflexivity.
-    f_equal. unfold file_stamp, set_fstamp; simpl. destruct (Nat.eqb i j) eqn:E2; [|reflexivity].
-    apply Nat.eqb_eq in E2. subst j.
-    pose proof (inv_ino _ _ I p q i L E Hin). congruence.
+    + exact (inv_taint _ _ I).
+  - split; [reflexivity|]. intros q Hq. repeat split; try reflexivity.
+    unfold file_stamp, set_fstamp; simpl. destruct (Nat.eqb i i0) eqn:E2; [|reflexivity].
+    apply Nat.eqb_eq in E2. subst i0.
+    destruct (inv_ino _ _ I p q i L H Hin) as [C|C]; [congruence | contradiction].
 Qed.
 
 Lemma keeps_newfile wd f p c : Inv wd f -> sinside wd p -> Keeps wd f (new_file p c f).
@@ -214,17 +261,19 @@ Proof.
       eapply sinside_not_prefix; eauto.
     + intros p0 q0 i. rewrite !lookup_newfile.
       destruct (path_eqb p p0) eqn:E1; destruct (path_eqb p q0) eqn:E2.
-      * apply path_eqb_spec in E2. subst q0. intros _ _ _. exact Hin.
+      * apply path_eqb_spec in E2. subst q0. intros _ _ _. now left.
       * intros [= <-] Hq _. apply (inv_fresh _ _ I) in Hq. lia.
-      * apply path_eqb_spec in E2. subst q0. intros _ _ _. exact Hin.
+      * apply path_eqb_spec in E2. subst q0. intros _ _ _. now left.
       * apply (inv_ino _ _ I).
     + intros p0 i. rewrite lookup_newfile. unfold new_file at 1; simpl. destruct (path_eqb p p0).
       * intros [= <-]. lia.
       * intro H. apply (inv_fresh _ _ I) in H. lia.
-  - intros q Hq. unfold view_at. rewrite lookup_newfile, (outside_neq _ _ _ Hin Hq).
-    destruct (lookup f q) as [[|j|]|] eqn:E; try reflexivity.
-    f_equal. unfold content, new_file; simpl. destruct (Nat.eqb (nexti f) j) eqn:E2; [|reflexivity].
-    apply Nat.eqb_eq in E2. apply (inv_fresh _ _ I) in E. lia.
+    + intros i Hi. unfold new_file; simpl. apply (inv_taint _ _ I) in Hi. lia.
+  - apply (frame_ents wd f _ p Hin); try reflexivity.
+    + intros q Hq. rewrite lookup_newfile, path_eqb_neq; [reflexivity | congruence].
+    + intros q j Lq. split; [|reflexivity].
+      unfold content, new_file; simpl. destruct (Nat.eqb (nexti f) j) eqn:E2; [|reflexivity].
+      apply Nat.eqb_eq in E2. apply (inv_fresh _ _ I) in Lq. lia.
 Qed.
 
 Lemma keeps_setdmode wd f p m : Inv wd f -> inside wd p = true -> Keeps wd f (set_dmode p m f).
@@ -234,8 +283,8 @@ Proof.
     + exact (inv_wd _ _ I).
     + exact (inv_ino _ _ I).
     + exact (inv_fresh _ _ I).
-  - intros q Hq. unfold view_at. rewrite lookup_setdmode.
-    destruct (lookup f q) as [[|j|]|]; try reflexivity.
+    + exact (inv_taint _ _ I).
+  - split; [reflexivity|]. intros q Hq. repeat split; try reflexivity.
     unfold dir_mode, set_dmode; simpl. rewrite (outside_neq _ _ _ Hin Hq). reflexivity.
 Qed.
 
@@ -246,8 +295,8 @@ Proof.
     + exact (inv_wd _ _ I).
     + exact (inv_ino _ _ I).
     + exact (inv_fresh _ _ I).
-  - intros q Hq. unfold view_at. rewrite lookup_setdstamp.
-    destruct (lookup f q) as [[|j|]|]; try reflexivity.
+    + exact (inv_taint _ _ I).
+  - split; [reflexivity|]. intros q Hq. repeat split; try reflexivity.
     unfold dir_stamp, set_dstamp; simpl. rewrite (outside_neq _ _ _ Hin Hq). reflexivity.
 Qed.
 
@@ -1372,7 +1421,7 @@ Definition fs0 : fsys :=
          ([b "victim"], NFile 1); ([b "c"], NDir); ([b "c"; b "secret"], NFile 2);
          ([b "r"; b "x"], NDir); ([b "r"; b "x"; b "victim"], NFile 3);
          ([b "r"; b "w"; b "old"], NFile 4) ]
-       [ (0, 100%N); (1, 101%N); (2, 102%N); (3, 103%N); (4, 104%N) ] 5 [] [] [].
+       [ (0, 100%N); (1, 101%N); (2, 102%N); (3, 103%N); (4, 104%N) ] 5 [] [] [] [].
 
 Lemma inv_fs0 : Inv wd0 fs0.
 Proof.
@@ -1392,12 +1441,12 @@ Proof.
            | (if path_eqb ?k q then _ else _) = _ =>
              let E := fresh "E" in destruct (path_eqb k q) eqn:E;
              [apply path_eqb_spec in E; subst q; try discriminate Hq | ]
-           end; try discriminate Hq; intros; try assumption; try reflexivity.
+           end; try discriminate Hq; intros; try (left; assumption); try (left; reflexivity).
   - intros p i H. change (nexti fs0) with 5. unfold lookup, fs0 in H. cbn [ents lookup_ents] in H.
     repeat match type of H with
            | (if ?c then _ else _) = _ =>
              destruct c; [first [discriminate H | (injection H as H; subst i; lia)] |]
-           end. discriminate.
+           end. discriminate.  - intros i [].
 Qed.
 
 Definition run0 (g : cfg) (os : list pushop) : fsys * list bool :=
@@ -1478,7 +1527,8 @@ Lemma attacks_confined_fixed :
 Proof.
   intros os Hin p Hp. unfold run0.
   destruct (pushes cfg_fixed false wd0 cwd0 (mkStore fs0 [] []) os) as [s oks] eqn:E. simpl.
-  apply (proj2 (pushes_keeps wd0 false cwd0 os (mkStore fs0 [] []) s oks inv_fs0 E) p Hp).
+  apply (same_outside_view wd0 fs0 (st_fs s) p (proj2 (pushes_keeps wd0 false cwd0 os (mkStore fs0 [] []) s oks inv_fs0 E)) Hp).
+  intros i _ [].
 Qed.
 
 Lemma push_outside_entry g pres wd cwd s title ts es1 e es2 :
@@ -1511,7 +1561,7 @@ Qed.
 
 (* without the last repair an archive can replace the (empty) working directory itself by a link *)
 Definition fs1 : fsys :=
-  mkFS [ ([b "r"], NDir); ([b "r"; b "w"], NDir); ([b "r"; b "victim"], NFile 0) ] [ (0, 100%N) ] 1 [] [] [].
+  mkFS [ ([b "r"], NDir); ([b "r"; b "w"], NDir); ([b "r"; b "victim"], NFile 0) ] [ (0, 100%N) ] 1 [] [] [] [].
 
 Lemma inv_fs1 : Inv wd0 fs1.
 Proof.
@@ -1531,12 +1581,12 @@ Proof.
            | (if path_eqb ?k q then _ else _) = _ =>
              let E := fresh "E" in destruct (path_eqb k q) eqn:E;
              [apply path_eqb_spec in E; subst q; try discriminate Hq | ]
-           end; try discriminate Hq; intros; try assumption; try reflexivity.
+           end; try discriminate Hq; intros; try (left; assumption); try (left; reflexivity).
   - intros p i H. change (nexti fs1) with 1. unfold lookup, fs1 in H. cbn [ents lookup_ents] in H.
     repeat match type of H with
            | (if ?c then _ else _) = _ =>
              destruct c; [first [discriminate H | (injection H as H; subst i; lia)] |]
-           end. discriminate.
+           end. discriminate.  - intros i [].
 Qed.
 
 Definition os_replace_wd : list pushop := [PDir (b ".") [] [ESym (b ".") (b "w/x")]].
@@ -1662,7 +1712,7 @@ Qed.
    checkouts) is truncated in place by a plain named blob of the repaired store *)
 Definition fs2 : fsys :=
   mkFS [ ([b "r"], NDir); ([b "r"; b "w"], NDir); ([b "victim"], NFile 0); ([b "r"; b "w"; b "old"], NFile 0) ]
-       [ (0, 100%N) ] 1 [] [] [].
+       [ (0, 100%N) ] 1 [] [] [] [].
 
 Lemma refuted_shared_inode :
   inside wd0 [b "victim"] = false /\
@@ -1798,7 +1848,8 @@ Record Inv0 (wd : path) (f : fsys) : Prop := mkInv0 {
   inv0_ne : wd <> [];
   inv0_anc : RealD f [] (removelast wd);
   inv0_none : forall p, inside wd p = true -> lookup f p = None;
-  inv0_fresh : forall p i, lookup f p = Some (NFile i) -> i < nexti f
+  inv0_fresh : forall p i, lookup f p = Some (NFile i) -> i < nexti f;
+  inv0_taint : forall i, In i (taint f) -> i < nexti f
 }.
 
 Definition PreInv (wd : path) (f : fsys) : Prop := Inv wd f \/ Inv0 wd f.
@@ -1830,10 +1881,12 @@ Proof.
       destruct (path_eqb wd p); [discriminate|]. intros Lp _ Hp. rewrite (inv0_none _ _ I0 p Hp) in Lp. discriminate.
     + intros p i. rewrite lookup_setdmode, lookup_set. destruct (path_eqb wd p); [discriminate|].
       apply (inv0_fresh _ _ I0).
-  - intros q Hq. unfold view_at. rewrite lookup_setdmode, lookup_set.
-    rewrite (outside_neq wd wd q (inside_refl wd) Hq).
-    destruct (lookup f q) as [[|j|]|]; try reflexivity.
-    unfold dir_mode, set_dmode, set_ent; simpl. rewrite (outside_neq wd wd q (inside_refl wd) Hq). reflexivity.
+    + exact (inv0_taint _ _ I0).
+  - split; [reflexivity|]. intros q Hq.
+    assert (Hne : path_eqb wd q = false) by (apply (outside_neq wd wd q (inside_refl wd) Hq)).
+    repeat split; try reflexivity.
+    + rewrite lookup_setdmode, lookup_set, Hne. reflexivity.
+    + unfold dir_mode, set_dmode, set_ent; simpl. rewrite Hne. reflexivity.
 Qed.
 
 (* os.MkdirAll over existing directories, then one missing last element *)
@@ -2048,7 +2101,7 @@ Qed.
 
 (* the hypothesis is satisfiable: a tree in which the working directory does not exist yet *)
 Definition fs3 : fsys :=
-  mkFS [ ([b "r"], NDir); ([b "victim"], NFile 0) ] [ (0, 100%N) ] 1 [] [] [].
+  mkFS [ ([b "r"], NDir); ([b "victim"], NFile 0) ] [ (0, 100%N) ] 1 [] [] [] [].
 
 Lemma inv0_fs3 : Inv0 wd0 fs3.
 Proof.
@@ -2063,6 +2116,7 @@ Proof.
            | (if ?c then _ else _) = _ =>
              destruct c; [first [discriminate H | (injection H as H; subst i; lia)] |]
            end. discriminate.
+  - intros i [].
 Qed.
 
 Definition os_first_push : list pushop :=
@@ -2117,7 +2171,8 @@ Record InvF (wd : path) (f : fsys) : Prop := mkInvF {
   invF_anc : RealD f [] (removelast wd);
   invF_file : exists i, lookup f wd = Some (NFile i) /\ forall q, lookup f q = Some (NFile i) -> q = wd;
   invF_none : forall p, sinside wd p -> lookup f p = None;
-  invF_fresh : forall p i, lookup f p = Some (NFile i) -> i < nexti f
+  invF_fresh : forall p i, lookup f p = Some (NFile i) -> i < nexti f;
+  invF_taint : forall i, In i (taint f) -> i < nexti f
 }.
 
 Definition PreInv3 (wd : path) (f : fsys) : Prop := Inv wd f \/ Inv0 wd f \/ InvF wd f.
@@ -2196,10 +2251,12 @@ Proof.
       * intros p i. rewrite lookup_newfile. unfold new_file at 1; simpl. destruct (path_eqb wd p).
         -- intros [= <-]. lia.
         -- intro L. apply (inv0_fresh _ _ I0) in L. lia.
-    + intros q Hq. unfold view_at. rewrite lookup_newfile, (path_eqb_neq wd q) by (intros ->; rewrite inside_refl in Hq; discriminate).
-      destruct (lookup f q) as [[|j|]|] eqn:E; try reflexivity.
-      f_equal. unfold content, new_file; simpl. destruct (Nat.eqb (nexti f) j) eqn:E2; [|reflexivity].
-      apply Nat.eqb_eq in E2. apply (inv0_fresh _ _ I0) in E. lia.
+      * intros i Hi. unfold new_file; simpl. apply (inv0_taint _ _ I0) in Hi. lia.
+    + apply (frame_ents wd f _ wd (inside_refl wd)); try reflexivity.
+      * intros q Hq. rewrite lookup_newfile, path_eqb_neq; [reflexivity | congruence].
+      * intros q j Lq. split; [|reflexivity].
+        unfold content, new_file; simpl. destruct (Nat.eqb (nexti f) j) eqn:E2; [|reflexivity].
+        apply Nat.eqb_eq in E2. apply (inv0_fresh _ _ I0) in Lq. lia.
   - pose proof (invF_ne _ _ IF) as Hne.
     destruct (invF_file _ _ IF) as (i & Li & Ui).
     assert (HL : lexreal f [] wd = true) by (apply wd_lexreal; exact (invF_anc _ _ IF)).
@@ -2214,9 +2271,9 @@ Proof.
       * exists i. split; [exact Li | exact Ui].
       * exact (invF_none _ _ IF).
       * exact (invF_fresh _ _ IF).
-    + intros q Hq. unfold view_at. rewrite lookup_setcont.
-      destruct (lookup f q) as [[|j|]|] eqn:E; try reflexivity.
-      f_equal. apply content_setcont_other. intros ->. apply Ui in E. subst q.
+      * exact (invF_taint _ _ IF).
+    + split; [reflexivity|]. intros q Hq. repeat split; try reflexivity.
+      apply content_setcont_other. intros ->. apply Ui in H. subst q.
       rewrite inside_refl in Hq. discriminate.
 Qed.
 
@@ -2240,8 +2297,9 @@ Proof.
       * rewrite app_nil_r, path_eqb_refl in Eq. discriminate.
       * exists x, r'. reflexivity.
     + intros p j. rewrite lookup_delent. destruct (path_eqb wd p); [discriminate|]. apply (invF_fresh _ _ IF).
-  - intros q Hq. unfold view_at. rewrite lookup_delent, (path_eqb_neq wd q) by (intros ->; rewrite inside_refl in Hq; discriminate).
-    reflexivity.
+    + exact (invF_taint _ _ IF).
+  - apply (frame_ents wd f _ wd (inside_refl wd)); try reflexivity; [|intros; split; reflexivity].
+    intros q Hq. rewrite lookup_delent, path_eqb_neq; [reflexivity | congruence].
 Qed.
 
 Lemma push_blob_at_wd wd s title w good s' ok :
@@ -2399,3 +2457,86 @@ Lemma wd_as_file_ok :
   lookup (st_fs (fst (pushes cfg_fixed false wd0 cwd0 (mkStore fs3 [] []) os_wd_as_file))) wd0 = Some NDir /\
   view_at (st_fs (fst (pushes cfg_fixed false wd0 cwd0 (mkStore fs3 [] []) os_wd_as_file))) [b "victim"] = view_at fs3 [b "victim"].
 Proof. vm_compute. repeat split. Qed.
+
+(* ---------- the observer's view ---------- *)
+
+(* with no tainted inode (no file below the working directory shares its inode with a file
+   outside) nothing at all changes outside *)
+Lemma pushes_keeps_view wd pres cwd os s s' oks :
+  Inv wd (st_fs s) -> taint (st_fs s) = [] ->
+  pushes cfg_fixed pres wd cwd s os = (s', oks) ->
+  Inv wd (st_fs s') /\ (forall p, inside wd p = false -> view_at (st_fs s') p = view_at (st_fs s) p).
+Proof.
+  intros I T H. destruct (pushes_keeps wd pres cwd os s s' oks I H) as [I' S]. split; [exact I'|].
+  intros p Hp. apply (same_outside_view wd _ _ p S Hp). intros i _. rewrite T. intros [].
+Qed.
+
+(* in general: the view changes only at files whose inode is tainted (and stays a file of that inode) *)
+Lemma pushes_keeps_view_tainted wd pres cwd os s s' oks :
+  Inv wd (st_fs s) ->
+  pushes cfg_fixed pres wd cwd s os = (s', oks) ->
+  forall p, inside wd p = false ->
+    view_at (st_fs s') p = view_at (st_fs s) p \/
+    exists i, lookup (st_fs s) p = Some (NFile i) /\ In i (taint (st_fs s)) /\ lookup (st_fs s') p = Some (NFile i).
+Proof.
+  intros I H p Hp. destruct (pushes_keeps wd pres cwd os s s' oks I H) as [_ S].
+  destruct (lookup (st_fs s) p) as [[|i|d a cs]|] eqn:L.
+  - left. apply (same_outside_view wd _ _ p S Hp). intros i Li. rewrite L in Li. discriminate.
+  - destruct (in_dec Nat.eq_dec i (taint (st_fs s))) as [Hi|Hi].
+    + right. exists i. split; [reflexivity|]. split; [exact Hi|].
+      destruct S as [_ S]. destruct (S p Hp) as (A1 & _). rewrite A1. exact L.
+    + left. apply (same_outside_view wd _ _ p S Hp). intros j Lj. rewrite L in Lj. injection Lj as <-. exact Hi.
+  - left. apply (same_outside_view wd _ _ p S Hp). intros i Li. rewrite L in Li. discriminate.
+  - left. apply (same_outside_view wd _ _ p S Hp). intros i Li. rewrite L in Li. discriminate.
+Qed.
+
+Lemma pushes_keeps3_view wd pres cwd os s s' oks :
+  PreInv3 wd (st_fs s) -> taint (st_fs s) = [] ->
+  pushes cfg_fixed pres wd cwd s os = (s', oks) ->
+  PreInv3 wd (st_fs s') /\ (forall p, inside wd p = false -> view_at (st_fs s') p = view_at (st_fs s) p).
+Proof.
+  intros I T H. destruct (pushes_keeps3 wd pres cwd os s s' oks I H) as [I' S]. split; [exact I'|].
+  intros p Hp. apply (same_outside_view wd _ _ p S Hp). intros i _. rewrite T. intros [].
+Qed.
+
+(* the tree of the known finding with its shared inode declared: the invariant holds, so the full
+   theorem applies - and the one outside change is exactly the permitted one *)
+Definition fs2t : fsys :=
+  mkFS [ ([b "r"], NDir); ([b "r"; b "w"], NDir); ([b "victim"], NFile 0); ([b "r"; b "w"; b "old"], NFile 0) ]
+       [ (0, 100%N) ] 1 [] [] [] [0].
+
+Lemma inv_fs2t : Inv wd0 fs2t.
+Proof.
+  constructor.
+  - intros q r E Hq. destruct q as [|q1 [|q2 [|q3 q']]]; [contradiction| | |].
+    + injection E as <- _. reflexivity.
+    + injection E as <- <- _. reflexivity.
+    + apply (f_equal (@length _)) in E. simpl in E. rewrite app_length in E. lia.
+  - intros p q i Hp _ _. right. unfold lookup, fs2t in Hp. cbn [ents lookup_ents] in Hp.
+    repeat match type of Hp with
+           | (if ?c then _ else _) = _ => destruct c; [first [discriminate Hp | (injection Hp as <-; now left)] |]
+           end. discriminate.
+  - intros p i H. change (nexti fs2t) with 1. unfold lookup, fs2t in H. cbn [ents lookup_ents] in H.
+    repeat match type of H with
+           | (if ?c then _ else _) = _ =>
+             destruct c; [first [discriminate H | (injection H as H; subst i; lia)] |]
+           end. discriminate.
+  - intros i [<-|[]]. change (nexti fs2t) with 1. lia.
+Qed.
+
+(* the invariant asks nothing of a tree beyond a working directory reached through real directories
+   and inode numbers below nexti: declaring every inode tainted satisfies the rest *)
+Definition with_taint (t : list nat) (f : fsys) : fsys :=
+  mkFS (ents f) (cont f) (nexti f) (dmode f) (fstamp f) (dstamp f) t.
+
+Lemma inv_any_tree wd f :
+  (forall q r, wd = q ++ r -> q <> [] -> lookup f q = Some NDir) ->
+  (forall p i, lookup f p = Some (NFile i) -> i < nexti f) ->
+  Inv wd (with_taint (seq 0 (nexti f)) f).
+Proof.
+  intros Hwd Hfresh. constructor.
+  - exact Hwd.
+  - intros p q i Lp _ _. right. apply in_seq. apply Hfresh in Lp. simpl in *. lia.
+  - exact Hfresh.
+  - intros i Hi. apply in_seq in Hi. simpl in *. lia.
+Qed.
